@@ -6,3 +6,9 @@ claim("C14", "proof",
       "DESIGN.md section 4, C14")
 
 NA["C15"] = "linearizability quantifies over concurrent histories and their real-time order; no sound static argument in reach bounds that. Its structural preconditions are decided under C03 (reply routing), C14 (response only after the handler returned) and C18 (per-request buffers)."
+
+claim("C02", "other",
+      "path-count/dominance rules on SSA CFGs, dispatch simulation of type switches, value provenance closed over call sites, who-may-call/who-may-write",
+      "Decides necessary structural conditions for every CFG path and every request type makePacket can build: exhaustive dispatch, exactly one readyPacket per dispatched request, no received request skipped, response id and order id are the request's own, order counter/sort/head-match/single-sender discipline, reply types legal per request type, no response abandoned at shutdown (two known findings). It decides the mechanism's shape; it does not execute interleavings.",
+      "Assumes handlers return and the transport preserves byte order; call resolution by static callees and VTA; oracle table of legal reply types from draft-ietf-secsh-filexfer-02 and OpenSSH PROTOCOL.",
+      "DESIGN.md section 4, C02")
